@@ -524,6 +524,19 @@ Definition msite_ref := msite_with s_fmt_pm s_fmt_unauthorized s_csrf_prefix s_c
 Definition input_of_m (m : text * text * option text) (environ : list (text * text)) (ofs : list text) : input :=
   mkInput (fst (fst m)) (Some (snd (fst m))) None (snd m) [] [] environ None ofs.
 
+(* ------------------------------------------------------------------ exception_response(status_code, keywords)
+   = status_map[status_code] called with the keywords; the module-level loop fills status_map from the module's globals in
+   definition order: public names, classes other than the excluded bases, truthy code; a later class
+   with the same code replaces an earlier one *)
+Definition status_entry (c : cls) : bool :=
+  negb (startswith [95] (c_name c)) && negb (mem_text (c_name c) status_map_excluded) && negb (text_eqb (c_code c) [48]).
+Fixpoint status_class_from (code : text) (l : list cls) (acc : option cls) : option cls :=
+  match l with
+  | [] => acc
+  | c :: r => status_class_from code r (if status_entry c && text_eqb (c_code c) code then Some c else acc)
+  end.
+Definition status_class (code : text) : option cls := status_class_from code classes None.
+
 (* ext = [formatter?; content_type kw?; charset kw?], formatter = [[key; source] ...]
    case = [cls; detail?; comment?; explanation?; location; headers; environ; body_template?; offers; ext]
    answer = [model; spec; spec_type]
@@ -544,6 +557,15 @@ Definition run_C19 (v : val) : val :=
         olet ex := get_opt get_text ex in olet loc := get_text loc in olet hs := get_pairs hs in
         olet en := get_pairs en in olet tm := get_opt get_text tm in olet ofs := get_texts ofs in
         let i := mkInput c d cm ex loc hs en tm ofs in
+        olet x := get_ext i ext in
+        Some (VL [put_res (model_x x); put_res (spec_x x); VT (spec_type i)])
+    | VL [code; d; cm; ex; loc; hs; en; tm; ofs; ext; VI 1%Z] =>
+        (* factory case: like the direct case, the class chosen by exception_response from the status code *)
+        olet code := get_text code in olet c := status_class code in
+        olet d := get_opt get_text d in olet cm := get_opt get_text cm in
+        olet ex := get_opt get_text ex in olet loc := get_text loc in olet hs := get_pairs hs in
+        olet en := get_pairs en in olet tm := get_opt get_text tm in olet ofs := get_texts ofs in
+        let i := mkInput (c_name c) d cm ex loc hs en tm ofs in
         olet x := get_ext i ext in
         Some (VL [put_res (model_x x); put_res (spec_x x); VT (spec_type i)])
     | VL [site; rq; en; ofs] =>
